@@ -116,6 +116,9 @@ func (vc *VC) Solve(dir string, quickMs int, raceS int) {
 	if len(obls) == 0 {
 		return
 	}
+	for _, o := range obls {
+		o.vc = vc
+	}
 	if len(vc.unsup) > 0 {
 		for _, o := range obls {
 			o.Status = "unsupported"
